@@ -8,6 +8,7 @@ import (
 	"github.com/brocaar/lorawan"
 
 	"lwverif/core"
+	"lwverif/spec"
 )
 
 func init() {
@@ -252,7 +253,14 @@ func genJoinAccept(r *core.RNG) *lorawan.JoinAcceptPayload {
 	case 1:
 		var pl lorawan.CFListChannelPayload
 		n := r.Intn(6)
+		holes := r.Chance(1, 3) // unused entries (frequency 0) anywhere in the list, not only at its end
+		if holes {
+			n = 5
+		}
 		for i := 0; i < n; i++ {
+			if holes && r.Chance(2, 5) {
+				continue
+			}
 			if r.Chance(1, 5) {
 				pl.Channels[i] = []uint32{100, 1677721500, 868100000, 1677721400}[r.Intn(4)]
 			} else {
@@ -320,6 +328,31 @@ func joinAcceptRoundTrip(c *core.Ctx, r *core.RNG) {
 	}
 	if len(b) != wantLen {
 		c.Violate("C01|joinaccept|length", "join-accept is %d bytes, want %d", len(b), wantLen)
+	}
+	// the bytes on the air are the ones a device of the specification would decrypt to the same fields,
+	// and the frame such a network would send decodes to the same value (a library-only round trip
+	// cannot tell a symmetric deviation from the specification)
+	sj := specJoinAccept(orig)
+	if ct, e := spec.JoinAcceptEncrypt([16]byte(key), sj.Payload(), [4]byte(mic)); e == nil {
+		want := append([]byte{b[0]}, ct...)
+		if !bytes.Equal(want, b) {
+			c.Violate("C01|joinaccept|wire-differs-from-spec", "join-accept on the wire %x, specification (MHDR | aes128_decrypt(payload|MIC)) %x\n%s", b, want, core.Dump(orig))
+		}
+		var fromSpec lorawan.PHYPayload
+		if p, msg := core.Guard(func() {
+			if err = fromSpec.UnmarshalBinary(want); err == nil {
+				err = fromSpec.DecryptJoinAcceptPayload(key)
+			}
+		}); p || err != nil {
+			c.Violate("C01|joinaccept|spec-frame-refused", "decoding the specification's join-accept %x: %v %s", want, err, msg)
+		} else if g, ok := fromSpec.MACPayload.(*lorawan.JoinAcceptPayload); ok {
+			stripZeroMasks(g)
+			w := cloneJoinAccept(orig)
+			stripZeroMasks(w)
+			if core.Dump(g) != core.Dump(w) || fromSpec.MIC != mic {
+				c.Violate("C01|joinaccept|spec-frame-differs", "the specification's join-accept %x decodes to\n %s mic %v\nwant %s mic %v", want, core.Dump(g), fromSpec.MIC, core.Dump(w), mic)
+			}
+		}
 	}
 	var out lorawan.PHYPayload
 	if p, msg := core.Guard(func() { err = out.UnmarshalBinary(b) }); p || err != nil {
